@@ -713,12 +713,17 @@ Proof.
 Qed.
 
 Theorem inv_checked_sound G H : inv_checked G = Some H ->
-  mat_eq (mmul G H) (ident (length G)) /\ mat_eq (mmul H G) (ident (length G)).
+  mat_eq (mmul G H) (ident (length G)) /\ mat_eq (mmul H G) (ident (length G)) /\
+  length H = length G /\ Forall (fun r => length r = length G) H.
 Proof.
   unfold inv_checked. destruct (gj_inv G) as [H'|]; [|discriminate].
+  destruct (Nat.eqb (length H') (length G)) eqn:E0; [|discriminate].
+  destruct (forallb (fun r => Nat.eqb (length r) (length G)) H') eqn:E3; [|discriminate].
   destruct (qll_eqb (mmul G H') (ident (length G))) eqn:E1; [|discriminate].
   destruct (qll_eqb (mmul H' G) (ident (length G))) eqn:E2; [|discriminate].
-  cbn [andb]. intros E; injection E as <-. split; apply qll_eqb_mat_eq; assumption.
+  cbn [andb]. intros E; injection E as <-. split; [|split; [|split]]; try (apply qll_eqb_mat_eq; assumption).
+  - apply Nat.eqb_eq, E0.
+  - rewrite forallb_forall in E3. apply Forall_forall. intros r Hr. apply Nat.eqb_eq, E3, Hr.
 Qed.
 
 (** * statements used by Props/C13.v *)
